@@ -97,7 +97,7 @@ theorem checkNetloc_cases (o : Oracles) (n : Str) :
     checkNetloc o n = .ok () ∨ checkNetloc o n = .error .valueError ∨ (∃ f a, checkNetloc o n = .error (.oracleMiss f a)) := by
   unfold checkNetloc
   simp only
-  cases o.nfkc (n.filter (fun c => c ≠ 64 ∧ c ≠ 58 ∧ c ≠ 35 ∧ c ≠ 63)) with
+  cases o.nfkc (n.filter (fun c => c ≠ 64 ∧ c ≠ 58 ∧ c ≠ 35 ∧ c ≠ 63 ∧ c ≠ 91 ∧ c ≠ 93)) with
   | none => right; right; exact ⟨_, _, rfl⟩
   | some nn =>
     simp only [ask, bind, Except.bind]
